@@ -76,7 +76,21 @@ def toInt64 (tb : Tables) (x : Float) : Int :=
   else if x < -9223372036854775808.0 then tb.convNeg
   else x.toInt64.toInt
 
+/-- the truncation of a finite float as an exact integer -/
+def truncInt (x : Float) : Option Int :=
+  if x.isNaN || x.isInf then none
+  else
+    let (m, e) := x.frExp
+    let mi : Int := (m * 9007199254740992.0).toInt64.toInt
+    if e ≥ 53 then some (mi * 2 ^ (e - 53).toNat) else some (Int.tdiv mi (2 ^ (53 - e).toNat))
+
 def floatNum (tb : Tables) : Num Float where
+  inInt64 := fun x => match truncInt x with
+    | some i => decide (-9223372036854775808 ≤ i ∧ i < 9223372036854775808)
+    | none => false
+  wideMod := fun a b => match truncInt a, truncInt b with
+    | some x, some y => if y = 0 then none else some (Float.ofInt (Int.tmod x y))
+    | _, _ => none
   ofBits := fun b => Float.ofBits b.toUInt64
   add := (· + ·)
   sub := (· - ·)
@@ -422,7 +436,13 @@ def runCase (payload : String) : String :=
               let b := "|".intercalate (outs.map (·.2))
               let nt := match es with | [.atom _] => "" | _ => "\tnt=1"
               if a = b then tree ++ " " ++ a ++ nt
-              else tree ++ " " ++ a ++ nt ++ "\tkf=error-node-left-operand\tspec=" ++ tree ++ " " ++ b
+              else
+                -- the code deviates from the reference: which known finding?
+                let coreOf (x : String) : String :=
+                  "|".intercalate ((x.splitOn "|").map fun o =>
+                    if o.startsWith "E " then " ".intercalate ((o.splitOn " ").take 3) else o)
+                let kf := if coreOf a = coreOf b then "error-node-left-operand" else "mod-out-of-int64-range"
+                tree ++ " " ++ a ++ nt ++ "\tkf=" ++ kf ++ "\tspec=" ++ tree ++ " " ++ b
     | _, _, _, _, _, _, _ => "bad-payload"
   | _, _, _, _, _ => "bad-payload"
 
